@@ -541,8 +541,8 @@ func TestC14(t *testing.T) {
 	sim.Chdir(workDir(t))
 	caseNo := 0
 	rapid.Check(t, func(rt *rapid.T) {
-		if worldsMade >= maxWorlds() {
-			rt.Skip("world budget used up")
+		if outOfBudget(st) {
+			return
 		}
 		worldsMade++
 		caseNo++
